@@ -150,6 +150,13 @@ class Tr:
                 if v is None:
                     continue
                 self.assign(tg, v)
+            elif isinstance(st, ast.AugAssign) and isinstance(st.target, ast.Name):
+                if only is not None and st.target.id not in only:
+                    continue
+                op = {ast.Add: "add", ast.Sub: "sub", ast.Mult: "mul", ast.Div: "div"}.get(type(st.op))
+                if op is None:
+                    raise NotTranslatable("augmented assignment operator")
+                self.env[st.target.id] = mk(op, self.e(st.target), self.e(st.value))
             elif isinstance(st, ast.Return):
                 if only is not None:
                     continue
